@@ -10,19 +10,19 @@ T = "Trusted: Lean 4.33.0 kernel + axioms {propext, Classical.choice, Quot.sound
 PLANNED = {
     "C01": (
         "Lean 4 proof that the move model refines a declarative rules spec + per-position-exhaustive behavioural correspondence with Position.move",
-        "Machine-checked theorems (Props/C01.lean): Impl.move, a line-by-line model of Position.move/_move_place/_move_slide, accepts exactly the moves Rules.Legal allows and returns exactly Rules.result (closed form), for every board size >= 1, every board and every move in Z x Z x type x Option(List Z); crash unreachable; stack order preserved. Tie: every well-formed move of the size plus an ill-formed stream on sampled reachable/constructed positions through both implementation and model, diffed; on divergence the Lean rules predicate is evaluated on the implementation's output.",
+        "Machine-checked theorems (Props/C01.lean): Impl.move, a line-by-line model of Position.move/_move_place/_move_slide, accepts exactly the moves Rules.Legal allows and returns exactly Rules.result (closed form), for every board size >= 1, every board and every move in Z x Z x type x Option(List Z); crash unreachable; stack order preserved. Tie: every well-formed move of the size plus an ill-formed stream on sampled reachable/constructed positions through both implementation and model, diffed; on divergence the Lean rules predicate is evaluated on the implementation's output. Also run inside cross-operation sessions (one interpreter, every public position operation interleaved on objects of all sizes derived from one another; DESIGN 10.8).",
         T + "CPython list/slice/attrs semantics are modelled, not verified. The tie samples positions (exhaustive over moves per position).",
         "5 C01",
     ),
     "C02": (
         "Lean 4 proof that the flood-fill model equals a declarative road/outcome spec + correspondence with winner()/has_road() on road-aware generated boards",
-        "Theorems (Props/C02.lean): the explicit-stack flood fill with its fuel is sound and complete for the existence of an orthogonal path of road squares between opposite edges; winner = the property's outcome sentence; the road query agrees; only tops matter. Tie: winner()/has_road() vs model on reachable positions, a road-aware generator (paths, interruptions, near-misses, double roads), full boards, reserve exhaustion, both parities, sizes 3..8; thorough: all 3x3 top patterns exhaustively.",
+        "Theorems (Props/C02.lean): the explicit-stack flood fill with its fuel is sound and complete for the existence of an orthogonal path of road squares between opposite edges; winner = the property's outcome sentence; the road query agrees; only tops matter. Tie: winner()/has_road() vs model on reachable positions, a road-aware generator (paths, interruptions, near-misses, double roads), full boards, reserve exhaustion, both parities, sizes 3..8; thorough: all 3x3 top patterns exhaustively. Road-rich boards are kept alive and asked again with board sizes interleaved (history-dependent replays); winner()/has_road() are also judged inside cross-operation sessions (DESIGN 10.8).",
         T + "Python set/list semantics of _walk modelled. Boards are sampled except the exhaustive 3x3 tier.",
         "5 C02",
     ),
     "C03": (
         "Lean 4 proofs about the move generator and table models (completeness w.r.t. Rules.Legal, no duplicates, inclusion) + correspondence of all_moves()/tables with an independent legal-set enumeration",
-        "Theorems (Props/C03.lean): every Rules.Legal move is in the generator's output, the output has no duplicates and is included in the size's table, table entries accepted by the move model are exactly the legal moves (via C01), for all sizes. Tie: all_moves() vs model, and the legal set computed in Lean from the rules over the well-formed universe plus an ill-formed stream vs what Position.move accepts.",
+        "Theorems (Props/C03.lean): every Rules.Legal move is in the generator's output, the output has no duplicates and is included in the size's table, table entries accepted by the move model are exactly the legal moves (via C01), for all sizes. Tie: all_moves() vs model, and the legal set computed in Lean from the rules over the well-formed universe plus an ill-formed stream vs what Position.move accepts. The search's reach is checked from tactical roots (stacks taller than the board, capstone stacks next to walls); all_moves() is also judged inside cross-operation sessions (DESIGN 10.8).",
         T + "positions sampled; move universe exhaustive per position.",
         "5 C03",
     ),
@@ -34,55 +34,55 @@ PLANNED = {
     ),
     "C05": (
         "Lean 4 frame/refinement proof on a heap-of-lists model of object identity + live-object mutation monitor over game trees of real positions",
-        "Theorems (Props/C05.lean): in a heap model that mirrors which list objects move/parse/transform/decode allocate and which they only read, every pre-existing cell is unchanged by any move attempt (accepted, refused, refused part-way), for any interleaving of operations on any retained positions; the heap model refines Impl.move. Tie: every list object reachable from hundreds/thousands of retained real positions (incl. TPS-parsed boards with aliased empty squares) is compared with its first-seen snapshot after every operation.",
+        "Theorems (Props/C05.lean): in a heap model that mirrors which list objects move/parse/transform/decode allocate and which they only read, every pre-existing cell is unchanged by any move attempt (accepted, refused, refused part-way), for any interleaving of operations on any retained positions; the heap model refines Impl.move. Tie: every list object reachable from hundreds/thousands of retained real positions (incl. TPS-parsed boards with aliased empty squares) is compared with its first-seen snapshot after every operation. Every object of the cross-operation sessions (DESIGN 10.8) must still read what it read when it was created.",
         T + "object-identity behaviour of CPython lists is modelled; mutation through C extensions or callers reaching into position.board is out of scope.",
         "5 C05",
     ),
     "C06": (
         "Lean 4 round-trip/injectivity/mover-relativity proofs for the token model + correspondence with encode/decode/encode_batch",
-        "Theorems (Props/C06.lean): decode(encode p) recovers board, side to move, size and reserves; injectivity; colour swap changes only the to-play token; tokens <= 255; layout; batch = per-row encodings zero-padded with mask exactly on the real tokens — for all well-formed positions within the vocabulary (any size). Tie: sizes 3..6, reachable/constructed, standard and custom reserves, sentinel on/off, shuffled mixed batches, swapped twins; thorough: collision search on small boards.",
+        "Theorems (Props/C06.lean): decode(encode p) recovers board, side to move, size and reserves; injectivity; colour swap changes only the to-play token; tokens <= 255; layout; batch = per-row encodings zero-padded with mask exactly on the real tokens — for all well-formed positions within the vocabulary (any size). Tie: sizes 3..6, reachable/constructed, standard and custom reserves, sentinel on/off, shuffled mixed batches, swapped twins; thorough: collision search on small boards. Batches above 512 rows; inside cross-operation sessions (DESIGN 10.8) equal values encode equally, the tensor handed to decode is unchanged and decoding it twice agrees.",
         T + "torch tensor indexing/assignment modelled.",
         "5 C06",
     ),
     "C07": (
         "Lean 4 proofs that the table model enumerates exactly the well-formed moves without duplicates, for all sizes + exhaustive comparison with MOVES_BY_SIZE, encode/decode, head width",
-        "Theorems (Props/C07.lean): slides n = exactly the non-empty positive sequences with sum <= n, no duplicates; table membership <-> MoveWF; no duplicates; encode/decode mutual inverses; lengths 135/496/1575/4572 and width bound by kernel evaluation. Tie: every entry of every table, every id, every move (exhaustive), PolicyValue.move_proj width.",
+        "Theorems (Props/C07.lean): slides n = exactly the non-empty positive sequences with sum <= n, no duplicates; table membership <-> MoveWF; no duplicates; encode/decode mutual inverses; lengths 135/496/1575/4572 and width bound by kernel evaluation. Tie: every entry of every table, every id, every move (exhaustive), PolicyValue.move_proj width. Every table move pickled in one interpreter and encoded in another (different hash seeds); tables re-read after callers modified the lists the public helpers returned.",
         T + "exhaustive tie; Python dict/list lookup semantics modelled.",
         "5 C07",
     ),
     "C08": (
         "Lean 4 proof that one simulation preserves a declarative tree invariant (induction over simulations) + whole-tree correspondence with the real MCTS under recorded choices/evaluator answers, and the Lean invariant evaluated on dumped real trees",
-        "Theorems (Props/C08.lean): TreeInv (visit and value sums, terminal values, children one-to-one with legal moves at the cutoff holding Rules.result, renormalised priors) is preserved by every simulation for any sampler choices and evaluator answers; analyze n gives the root exactly n visits (fresh or re-used). Tie: real MCTS with uniform/random/adversarial/real-network evaluators, sizes 3..6, budgets 1..400, root noise on/off; whole tree compared; TreeInv evaluated by the driver on the implementation's tree.",
+        "Theorems (Props/C08.lean): TreeInv (visit and value sums, terminal values, children one-to-one with legal moves at the cutoff holding Rules.result, renormalised priors) is preserved by every simulation for any sampler choices and evaluator answers; analyze n gives the root exactly n visits (fresh or re-used). Tie: real MCTS with uniform/random/adversarial/real-network evaluators, sizes 3..6, budgets 1..400, root noise on/off; whole tree compared; TreeInv evaluated by the driver on the implementation's tree. Roots include tactical constructed positions; searches in which the evaluator fails once and the caller resumes the tree.",
         T + "torch.multinomial/Dirichlet are oracles (recorded); float32 prior renormalisation compared to 2e-6; wall-clock time limits not covered.",
         "5 C08",
     ),
     "C09": (
         "Lean 4 proofs about the solver-argument assembly and legality of returned moves + capture of the real solver calls at every expanded node",
-        "Theorems (Props/C09.lean): the (prior, q, N, K) handed to the solver are the ones the formula names; unvisited node -> prior; weights of the formula are non-negative for any alpha above max q; every child move of an invariant-satisfying tree is legal. Tie: at every expanded node of the C08 trees the actual solve_policy arguments and result are captured and checked against the model and the C10 contract; returned moves checked legal. PARTIAL: float rounding in q and lambda is observed, not proved.",
+        "Theorems (Props/C09.lean): the (prior, q, N, K) handed to the solver are the ones the formula names; unvisited node -> prior; weights of the formula are non-negative for any alpha above max q; every child move of an invariant-satisfying tree is legal. Tie: at every expanded node of the C08 trees the actual solve_policy arguments and result are captured and checked against the model and the C10 contract; returned moves checked legal. PARTIAL: float rounding in q and lambda is observed, not proved. Roots include tactical constructed positions; searches resumed after one evaluator failure; a tree that cannot be dumped still has its returned moves put to the rules.",
         T + "floating-point evaluation of q and lambda is outside the proof (partial).",
         "5 C09, 7",
     ),
     "C10": (
         "Lean 4 / Mathlib proofs about the bisection over an ordered field (bracket, monotonicity, invariant, contract, termination of the Python variant) + exact-rational contract evaluation on the outputs of both real solvers",
-        "Theorems (Props/C10.lean): the initial bracket encloses the root and lies above max q; g strictly decreasing; every iterate keeps the bracket; any returned vector has the form lambda*pi/(alpha-q) with one alpha above every q, positive weights and total within the stated slack; Python variant terminates within 32 rounds. Tie: tak_ext.solve_policy (built from the current tak.cpp) and solve_policy_python on inputs spanning the quantified domain, contract evaluated over Rat on the exact float bit patterns. PARTIAL: IEEE rounding, the sum==last_sum exit, float32 resolution are observed by the tie, not proved.",
+        "Theorems (Props/C10.lean): the initial bracket encloses the root and lies above max q; g strictly decreasing; every iterate keeps the bracket; any returned vector has the form lambda*pi/(alpha-q) with one alpha above every q, positive weights and total within the stated slack; Python variant terminates within 32 rounds. Tie: tak_ext.solve_policy (built from the current tak.cpp) and solve_policy_python on inputs spanning the quantified domain, contract evaluated over Rat on the exact float bit patterns. PARTIAL: IEEE rounding, the sum==last_sum exit, float32 resolution are observed by the tie, not proved. Chains of closely related consecutive calls (a node as it grows), with the preceding calls kept as history in the replay.",
         T + "no formal IEEE-754 semantics (partial); inputs sampled over the stated regimes.",
         "5 C10, 7",
     ),
     "C11": (
         "Lean 4 proof that the self-play loop model produces transcripts satisfying a declarative TranscriptOK for every engine oracle + scripted-engine and real-MCTS transcripts checked by the Lean predicate",
-        "Theorems (Props/C11.lean): chain of legal moves from the initial position, alignment of the four lists, stopping rule, result, labels, termination — for every oracle stream satisfying what C08/C09 guarantee. Tie: scripted engines forcing each ending (roads, double road, flat win, draw, reserve exhaustion, resignation at the boundary, ply limit exactly/exceeded) plus the real MCTS; TranscriptOK evaluated by the driver on the implementation's transcripts.",
+        "Theorems (Props/C11.lean): chain of legal moves from the initial position, alignment of the four lists, stopping rule, result, labels, termination — for every oracle stream satisfying what C08/C09 guarantee. Tie: scripted engines forcing each ending (roads, double road, flat win, draw, reserve exhaustion, resignation at the boundary, ply limit exactly/exceeded) plus the real MCTS; TranscriptOK evaluated by the driver on the implementation's transcripts. The recorded search probabilities of the real search are judged as stated (a distribution to 1.1e-3), also under a confident evaluator with floor priors.",
         T + "engine behaviour is an oracle constrained by C08/C09.",
         "5 C11",
     ),
     "C12": (
         "Lean 4 proofs about the batch/dedup models + exact comparison with encode_games and dedup_batch on dyadic data",
-        "Theorems (Props/C12.lean): row order and content of encode_games; dense targets; labels; dedup keys in first-occurrence order, means, identity without duplicates, padding-insensitive keys. Tie: transcripts from real and synthetic games (repeats, transpositions, mixed lengths), batches with arbitrary multisets of repeats and pad widths; dyadic targets so sums are exact.",
+        "Theorems (Props/C12.lean): row order and content of encode_games; dense targets; labels; dedup keys in first-occurrence order, means, identity without duplicates, padding-insensitive keys. Tie: transcripts from real and synthetic games (repeats, transpositions, mixed lengths), batches with arbitrary multisets of repeats and pad widths; dyadic targets so sums are exact. Zero-extension key families (token 0 is both EMPTY and padding); Transcript objects encoded, changed in place and encoded again.",
         T + "torch tensor arithmetic on dyadic values is exact; empty transcripts excluded.",
         "5 C12",
     ),
     "C13": (
         "Lean 4 proofs that the TPS formatter equals an independent reference writer and that parse/format round-trip, parser soundness w.r.t. a grammar, no crash + correspondence incl. a grammar-directed malformed stream",
-        "Theorems (Props/C13.lean): format = standard writer; parse(format p) = p; format(parse t) = t for canonical t; accepted text is in the grammar; no crash. Tie: format_tps on sizes 3..8; parse_tps on canonical texts from the Lean writer, lenient forms and the malformed stream; outputs canonicalised to position/IllegalTPS/crash.",
+        "Theorems (Props/C13.lean): format = standard writer; parse(format p) = p; format(parse t) = t for canonical t; accepted text is in the grammar; no crash. Tie: format_tps on sizes 3..8; parse_tps on canonical texts from the Lean writer, lenient forms and the malformed stream; outputs canonicalised to position/IllegalTPS/crash. format_tps/parse_tps are also judged inside cross-operation sessions (format, move, format the child; DESIGN 10.8).",
         T + "Python str.split/int()/isdigit semantics modelled; leading zeros and >4300-digit numbers are an unspecified zone.",
         "5 C13",
     ),
@@ -94,7 +94,7 @@ PLANNED = {
     ),
     "C15": (
         "Lean 4 proofs that the eight matrices form the dihedral group and that Impl.move commutes with every symmetry + commutation squares run directly on the implementation",
-        "Theorems (Props/C15.lean): group facts by kernel evaluation; bijection on every n x n grid; Impl.move (T p) (T m) = map T (Impl.move p m) for every symmetry, position and move; legality/outcome/side/ply/reserves invariant; variants list starts with the position and has each distinct image once. Tie: matrices observed through behaviour; transform_position/transform_move/symmetries vs model; transform-then-play vs play-then-transform over every move and an ill-formed stream, sizes 3..8, standard and custom reserves.",
+        "Theorems (Props/C15.lean): group facts by kernel evaluation; bijection on every n x n grid; Impl.move (T p) (T m) = map T (Impl.move p m) for every symmetry, position and move; legality/outcome/side/ply/reserves invariant; variants list starts with the position and has each distinct image once. Tie: matrices observed through behaviour; transform_position/transform_move/symmetries vs model; transform-then-play vs play-then-transform over every move and an ill-formed stream, sizes 3..8, standard and custom reserves. Inside cross-operation sessions (DESIGN 10.8) every operation on a descendant of a transformed position is judged (transform, move, adjudicate).",
         T + "numpy integer matmul on 3x3 matrices modelled.",
         "5 C15",
     ),
@@ -106,25 +106,25 @@ PLANNED = {
     ),
     "C17": (
         "Lean 4 proofs about a request-queue/batch-worker transition system for every batching policy + real Server driven on a virtual-time event loop with traces validated against the model",
-        "Theorems (Props/C17.lean): pairing (every delivered response = f(own position)), at-most-once, conservation, FIFO progress bound, byte round-trip of float32 vectors — for all executions and any batch-formation policy. Tie: the real worker_loop/Evaluate under enumerated arrival schedules (bursts around 8 and 80, trickles around 1 ms, latencies), fingerprinting fake model and a real small Transformer; traces validated by the driver. PARTIAL: real gRPC transport, protobuf, executor threads are stubbed/not modelled.",
+        "Theorems (Props/C17.lean): pairing (every delivered response = f(own position)), at-most-once, conservation, FIFO progress bound, byte round-trip of float32 vectors — for all executions and any batch-formation policy. Tie: the real worker_loop/Evaluate under enumerated arrival schedules (bursts around 8 and 80, trickles around 1 ms, latencies), fingerprinting fake model and a real small Transformer; traces validated by the driver. PARTIAL: real gRPC transport, protobuf, executor threads are stubbed/not modelled. Full queues of 90-260-token rows (late-game 7x7/8x8).",
         T + "asyncio.Queue FIFO semantics and the stubbed transport are trusted (partial).",
         "5 C17, 7",
     ),
     "C18": (
         "Lean 4 proofs about a parent/worker/bounded-queue transition system (conservation, exactness, potential, no silent stall) + real MultiprocessSelfPlayEngine under fault scripts",
-        "Theorems (Props/C18.lean): conservation of games; fault-free completion returns exactly N with nothing carried over; finite progress by a potential; if nothing but polling is enabled some worker is dead with a non-zero code, so the next poll raises; witness of the hang for exit code 0. Tie: the real engine with scripted engine factories, N x W grid, two consecutive requests, faults (factory raises, k-th evaluation raises, SIGKILL), outcome classes vs the model. PARTIAL: death inside a pipe write and OS scheduling are not modelled.",
+        "Theorems (Props/C18.lean): conservation of games; fault-free completion returns exactly N with nothing carried over; finite progress by a potential; if nothing but polling is enabled some worker is dead with a non-zero code, so the next poll raises; witness of the hang for exit code 0. Tie: the real engine with scripted engine factories, N x W grid, two consecutive requests, faults (factory raises, k-th evaluation raises, SIGKILL), outcome classes vs the model. PARTIAL: death inside a pipe write and OS scheduling are not modelled. Faults include a worker killed inside its engine factory (engine construction is inside the watched bound) and an idle pause between requests with the workers' timed waits compressed 100x.",
         T + "multiprocessing.Queue as a bounded FIFO with blocking put is trusted (partial).",
         "5 C18, 7",
     ),
     "C19": (
         "Lean 4 proofs of crash-prefix consistency of the save protocol over a file-system model, for every interruption point and history + real save killed at every file-system operation and resumed",
-        "Theorems (Props/C19.lean): round trip; for every prefix of the save's operation list (file in flight left partial) resume yields the previous or the new snapshot, never fresh and never partial; the file-system invariant is preserved along every history of saves, crashes and resumes; serve/train mode round trip; replay window = most recent k; negation witnesses for the pinned protocol. Tie: syscall sequence of the real save abstracted (strace) and compared; the saving process killed at every operation, truncated in-flight files, real resume logic classified; bit-exact restore. PARTIAL: power-loss reordering (no fsync claimed), torch.save internals.",
+        "Theorems (Props/C19.lean): round trip; for every prefix of the save's operation list (file in flight left partial) resume yields the previous or the new snapshot, never fresh and never partial; the file-system invariant is preserved along every history of saves, crashes and resumes; serve/train mode round trip; replay window = most recent k; negation witnesses for the pinned protocol. Tie: syscall sequence of the real save abstracted (strace) and compared; the saving process killed at every operation, truncated in-flight files, real resume logic classified; bit-exact restore. PARTIAL: power-loss reordering (no fsync claimed), torch.save internals. C19_startup: resume and the mode switch compose; the real start-up sequence (load_or_init_model, serve_mode, train_mode) is run on full-precision snapshots under bf16/fp16/fp32 serving.",
         T + "POSIX rename/symlink atomicity, torch.save/load and yaml being mutually inverse are trusted (partial).",
         "5 C19, 7",
     ),
     "C20": (
         "Lean 4 proofs that epochs are permutations chunked into aligned batches and that the stream is a function of the seed + exact comparison with the real datasets under recorded permutations",
-        "Theorems (Props/C20.lean): an epoch's batches concatenate to a permutation of the rows; batch sizes; field alignment; merged buffers mask exactly the padding; determinism, fast-forward = consuming, pickle restarts. Tie: real xformer Dataset and ReplayBufferDataset on generated files/buffers with torch.randperm recorded as the oracle; determinism/fast-forward/pickle compared across real instances.",
+        "Theorems (Props/C20.lean): an epoch's batches concatenate to a permutation of the rows; batch sizes; field alignment; merged buffers mask exactly the padding; determinism, fast-forward = consuming, pickle restarts. Tie: real xformer Dataset and ReplayBufferDataset on generated files/buffers with torch.randperm recorded as the oracle; determinism/fast-forward/pickle compared across real instances. C20_interleaved: several live iterators over one dataset object, interleaved with each other and with fast-forwards, each own one epoch of the sequential stream; evaluated by the driver (check-session) on what the real iterators return. Field kinds include integers beyond 2^24/2^53 next to float32/float16 fields.",
         T + "torch.randperm is an oracle (each recorded result is checked to be a permutation); CUDA pinning not covered.",
         "5 C20",
     ),
